@@ -15,11 +15,14 @@ package main
 import (
 	"context"
 	"fmt"
+	"net/http"
+	"net/http/httptest"
 	"os"
 	"path/filepath"
 	"sort"
 	"strconv"
 	"strings"
+	"sync"
 	"time"
 
 	"chainguard.dev/apko/pkg/apk/apk"
@@ -47,6 +50,32 @@ type filesWorld struct {
 	tmp  string
 	n    int
 	base time.Time
+	// etag mode: the same histories over a remote repository served with an ETag (the event's Mtime is the ETag's number)
+	etag   bool
+	srv    *httptest.Server
+	mu     sync.Mutex
+	served map[string]servedIndex // URL path of the index -> what is served now
+}
+
+type servedIndex struct {
+	body []byte
+	etag string
+}
+
+func (w *filesWorld) handler(rw http.ResponseWriter, req *http.Request) {
+	w.mu.Lock()
+	sv, ok := w.served[req.URL.Path]
+	w.mu.Unlock()
+	if !ok {
+		http.NotFound(rw, req)
+		return
+	}
+	rw.Header().Set("ETag", sv.etag)
+	rw.Header().Set("Content-Length", strconv.Itoa(len(sv.body)))
+	if req.Method == http.MethodHead {
+		return
+	}
+	_, _ = rw.Write(sv.body)
 }
 
 func fMarker(r, id int) string {
@@ -91,6 +120,9 @@ func (w *filesWorld) run(evs []*fEvent) error {
 	w.n++
 	dir := filepath.Join(w.tmp, fmt.Sprintf("h%d", w.n))
 	loc := func(r int) string { return filepath.Join(dir, fmt.Sprintf("r%d", r)) }
+	if w.etag {
+		loc = func(r int) string { return fmt.Sprintf("%s/h%d/r%d", w.srv.URL, w.n, r) }
+	}
 	maxM := map[int]int{}
 	seen := map[int]bool{}
 	for _, e := range evs {
@@ -98,6 +130,12 @@ func (w *filesWorld) run(evs []*fEvent) error {
 			b, err := w.archive(e)
 			if err != nil {
 				return err
+			}
+			if w.etag {
+				w.mu.Lock()
+				w.served[fmt.Sprintf("/h%d/r%d/x86_64/APKINDEX.tar.gz", w.n, e.Repo)] = servedIndex{body: b, etag: fmt.Sprintf(`"e%d"`, e.Mtime)}
+				w.mu.Unlock()
+				continue
 			}
 			f := filepath.Join(loc(e.Repo), "x86_64", "APKINDEX.tar.gz")
 			if err := os.MkdirAll(filepath.Dir(f), 0o755); err != nil {
@@ -134,6 +172,9 @@ func (w *filesWorld) run(evs []*fEvent) error {
 			keys[w.keys[k].Name] = w.keys[k].Pub
 		}
 		opts := []apk.IndexOption{}
+		if w.etag {
+			opts = append(opts, apk.WithHTTPClient(w.srv.Client()))
+		}
 		if c.Ignore {
 			opts = append(opts, apk.WithIgnoreSignatures(true))
 		}
@@ -285,14 +326,29 @@ var requiredFilesFeatures = []string{
 	"version-in-place=signed", "version-in-place=unsigned", "version-in-place=spliced", "version-in-place=truncated",
 }
 
-func filesStage(dir string, seed uint64, tier string) error {
+func filesStage(dir string, seed uint64, tier string) error { return filesStageMode(dir, seed, tier, false) }
+
+// etag stage: the same kind of histories over remote repositories served with an ETag; a "rewrite" makes the server serve a
+// new version under an ETag whose number is fresh (later than every earlier one: the change can be seen) or reused
+func etagStage(dir string, seed uint64, tier string) error { return filesStageMode(dir, seed, tier, true) }
+
+func filesStageMode(dir string, seed uint64, tier string, etag bool) error {
 	r := gal.NewRand(seed ^ 0xf11e)
+	if etag {
+		r = gal.NewRand(seed ^ 0xe7a6)
+	}
 	tmp, err := os.MkdirTemp("", "c04files")
 	if err != nil {
 		return err
 	}
 	defer os.RemoveAll(tmp)
-	w := &filesWorld{keys: map[string]*synthrepo.Key{}, tmp: tmp, base: time.Unix(1_700_000_000, 0)}
+	w := &filesWorld{keys: map[string]*synthrepo.Key{}, tmp: tmp, base: time.Unix(1_700_000_000, 0), etag: etag, served: map[string]servedIndex{}}
+	check := "check_files"
+	if etag {
+		w.srv = httptest.NewServer(http.HandlerFunc(w.handler))
+		defer w.srv.Close()
+		check = "check_etag"
+	}
 	A, B := "alice.rsa.pub", "bob.rsa.pub"
 	for _, n := range []string{A, B} {
 		k, err := synthrepo.NewKey(n)
@@ -301,7 +357,7 @@ func filesStage(dir string, seed uint64, tier string) error {
 		}
 		w.keys[n] = k
 	}
-	wr := &gal.Writer{Dir: dir, Require: "From Apko Require Import Corr.C04.", Type: "files_case", Check: "check_files", Shard: 100}
+	wr := &gal.Writer{Dir: dir, Require: "From Apko Require Import Corr.C04.", Type: "files_case", Check: check, Shard: 100}
 	hist := map[string]int{}
 	const nrepos = 3
 	add := func(evs []*fEvent, class, note string) error {
@@ -350,6 +406,9 @@ func filesStage(dir string, seed uint64, tier string) error {
 	n := 60
 	if tier == "thorough" {
 		n = 1200
+	}
+	if etag {
+		n = n / 2
 	}
 	gen := func() []*fEvent {
 		var evs []*fEvent
